@@ -159,10 +159,18 @@ def stream_machine(ctx, H):
         """frames: payload lengths; reads: chunk sizes; expect: delivered count after each read"""
         delivered = []
 
+        nbeh[0] += 0
+        active = (len(frames) + len(reads)) % 2 == 1      # every second behaviour is replayed against an endpoint that answers: it sends a message on its first
+                                                           # frame and closes the connection itself on its second - the client's later frames are still delivered
+
         class Endpt:
             @staticmethod
             def callback(ws, opcode, payload):
                 delivered.append((opcode, payload))
+                if active and len(delivered) == 1:
+                    ws.send("got it")
+                if active and len(delivered) == 2:
+                    ws.close()
         req = FakeRequest()
         buf = H.WebSocketTemporaryRingBuffer(req)
         h = H.WebSocketTemporaryHandler(("h", 1), {}, {}, buf, Endpt)
